@@ -70,7 +70,7 @@ class C14(Check):
         nodes = list(flat_nodes)
         depth = len(nodes[0].split('/'))
         run_kw = None
-        for j in range(rng.randint(1, 7)):
+        for j in range(rng.randint(1, 12 if tier == 'thorough' else 7)):
             k = rng.choice(kinds)
             if k in ('compile', 'jac'):
                 kw = {'in_place': False, 'vectorize': rng.random() < 0.5 if k == 'compile' else False,
